@@ -663,9 +663,8 @@ impl SimCard {
                     }
                     self.busy_left = self.latency(10_000);
                 } else if mosi & 0xC0 == 0x40 && self.tx.is_empty() {
+                    // a card waiting for a data token does not execute commands (other than CMD12, handled above)
                     self.err(format!("command byte {:#04x} while a {} write is open (no data token / stop token sent)", mosi, if multi { "multi-block" } else { "single-block" }));
-                    self.rx = Rx::Frame(1);
-                    self.frame[0] = mosi;
                 } else if self.tx.is_empty() {
                     self.err(format!("bad data token {:#04x} for a {} write", mosi, if multi { "multi-block" } else { "single-block" }));
                 }
